@@ -65,6 +65,8 @@ struct DaemonScenario : Scenario {
   std::shared_ptr<Pipe> cmd[2], rep[2]; std::shared_ptr<Sink> logsink;
   std::string cmdbuf[2];
   std::vector<Delivery> inflight; int serial = 0;
+  size_t tick_pos = std::string::npos, tick_end = 0; int tick_cnt = 0;
+  bool expect_leftovers = false; // failed or hung injections legitimately leave S2/S3 files that are collected after 36 hours
   bool mark_check_off = false;   // after an injected failure inside the daemon the report/mark alignment is unknown until it restarts
   std::deque<std::pair<long, std::string>> markfifo[2];   // K/D reports sent and not yet followed by the daemon's mark write, per channel
   std::map<long, MsgState> ledger;    // by queue number (current holder of the number)
@@ -539,10 +541,12 @@ struct DaemonScenario : Scenario {
     long dl = w.next_deadline();
     if (dl < 0) { w.violation("C16:blocked-forever", "queue not empty but qmail-send is blocked without any timeout"); return false; }
     // after a crash S2/S3 leftovers are legitimate; they are collected only once they are 36 hours old
-    bool leftovers_only = (machine_crashed || daemon_killed) && only_leftovers(w);
+    bool leftovers_only = (machine_crashed || daemon_killed || expect_leftovers) && only_leftovers(w);
     if (++ticks > (leftovers_only ? max_ticks + 140 : max_ticks)) { if (M("C15") || M("C03")) w.violation("C03:queue-not-drained", "after " + std::to_string(max_ticks) + " wake-ups with every further attempt answered success the queue is still not empty; history:" + history); return false; }
     if (M("C16")) check_sleep_bound(w, dl);
-    w.advance_clock(dl); w.counters["ticks"]++; history += " tick(" + std::to_string(dl - 1000000000) + ")";
+    w.advance_clock(dl); w.counters["ticks"]++;
+    if (tick_pos != std::string::npos && history.size() == tick_end) { history.resize(tick_pos); tick_cnt++; } else { tick_cnt = 1; tick_pos = history.size(); }
+    history += (tick_cnt > 1 ? " tick*" + std::to_string(tick_cnt) : std::string(" tick")) + "(->" + std::to_string(dl - 1000000000) + ")"; tick_end = history.size();
     return true;
   }
   void send_signal(World &w, int which) {
